@@ -78,6 +78,6 @@ void perform(int who, int s) {
   }
 }
 // called from the hooks of the population objects
-void script(int who, int kind, int s) { perform(who, s & 0xffffff); add(({ "hook-end", who, kind })); }
+void script(int who, int kind, int s) { if (s & 0xff) add(({ "hook-script", who, kind })); perform(who, s & 0xffffff); add(({ "hook-end", who, kind })); }
 // top-level ops (called by the harness)
 mixed top(int who, int s) { perform(who, s); return 1; }
